@@ -18,22 +18,22 @@ CHECKS = {
  "C03": ("exploration",
          "model-based testing against an independent UTXO replay: exhaustive enumeration of small block trees x golden-ticket masks x all delivery permutations, plus proptest-generated trees/orders/duplicates/invalid blocks with shrinking",
          "After every single delivery the node's by-height index, per-block on-chain flags, reported tip and utxoset are compared with an independently written replay (BTreeMap ledger) of the ancestor path of the reported tip. Small trees are enumerated completely in every delivery order, so arrival-order-specific bookkeeping bugs in that sub-space cannot hide; random trees (to 16 blocks, conflicting spends on sibling branches, invalid blocks, duplicates, orphans) reach repeated back-and-forth reorganisations.",
-         "Blocks are built by honest producers following each branch (the repository's Block::create). Entries older than the 2*genesis_period purge horizon are not compared. Histories on which add_block panics, diverges or leaves a trace after a rejection are attributed to C04. Open known finding F10 (orphan path with initial_loading_completed=false) is keyed by cause.",
+         "Blocks are built by honest producers following each branch (the repository's Block::create). Utxoset and replay are compared from block tip-gp upwards (spendable window plus the block the next rebroadcast reads); index and flags above the 2*genesis_period purge horizon. Histories on which add_block panics or diverges are attributed to C04; a rejected delivery that leaves a trace is judged here too (is the state left behind still one chain?). Open known finding F10 (orphan path with initial_loading_completed=false) is keyed by cause.",
          "DESIGN.md §3 C03"),
  "C04": ("fault_enumeration",
          "systematic fault enumeration over (fork shape, offending position, kind of invalidity, chain content) with a full before/after state snapshot oracle and a deterministic step-count bound (hook H1)",
-         "Every combination of main-chain length, fork depth, position of the invalid block in the candidate chain (first/middle/last) and 16 kinds of invalidity is built with real signed blocks and delivered; any delivery that is not accepted must leave tip, utxoset, chain index, stored blocks and wallet bit-identical, the wind/unwind loop must finish within 2(|old|+|new|)+2 iterations (counted by the cfg-guarded hook), and the tip must never move onto a chain containing the invalid block.",
+         "Every combination of main-chain length, fork depth, position of the invalid block in the candidate chain (first/middle/last) and 20 kinds of invalidity (9 header lies, 4 payout lies, 7 invalid-transaction edits) is built with real signed blocks and delivered; any delivery that is not accepted must leave tip, utxoset, chain index, stored blocks and wallet bit-identical, the wind/unwind loop must finish within 2(|old|+|new|)+2 iterations (counted by the cfg-guarded hook), and the tip must never move onto a chain containing the invalid block.",
          "Children of the invalid block are produced by a harness-side builder that treats the invalid block as accepted; the step counter is hook H1 (cfg saito_verif), which also turns a livelock into a verdict instead of a hang.",
          "DESIGN.md §3 C04"),
  "C01": ("exploration",
-         "property-based adversarial testing: generated chain states x an edit catalogue of 19 invalid-transaction constructions, judged by an independent reference ledger, offered to both pool entry points and (inside attacker-built blocks) to block validation",
+         "property-based adversarial testing: generated chain states x an edit catalogue of 22 invalid-transaction constructions, judged by an independent reference ledger, offered to both pool entry points and (inside attacker-built blocks) to block validation",
          "Honest forked histories (fees, golden tickets, rebroadcasts; gp 4..100) put a victim node into one of the state classes fresh / after reorg / after window wrap; every catalogue edit is built from the victim's real ledger, confirmed invalid by the independent reference ledger, and must be refused by Mempool::add_transaction_if_validates, by VerificationThread::verify_tx and by add_block of an attacker-built block with 0..3 honest fillers; an honest spend must be admitted. A validator that stops gating on any one rule (signature, ownership, existence, window, double spend, overspend, type privileges) accepts at least one catalogue entry.",
          "Staking (social_stake>0) state class is not generated. Adversary cannot forge signatures. The attacker's block is produced with the repository's Block::create, so its header is consistent with the invalid content.",
          "DESIGN.md §3 C01"),
  "C02": ("exploration",
          "invariant checking over generated histories: supply recomputed in u128 from the node's own utxoset and tip header after every accepted block; per-transaction conservation in u128",
          "After every block accepted onto the longest chain of generated honest histories (forks/reorgs, several window wraps, fees, payouts, rebroadcast with and without treasury payout multiplier and 5% cap, amounts 1..2^58) the sum of spendable in-window outputs + treasury + graveyard + unpaid + fees must equal the genesis issuance in unbounded arithmetic, and the node's own (wrapping) supply check must not abort it. Overflow-based minting by adversarial transactions is covered by C01's Overspend/OverspendWrap edits.",
-         "Supply is recomputed from the implementation's utxoset (not from the reference ledger) so that utxoset bugs show up as supply changes. Known finding F11 (u64 overflow of amount x payout multiplier) is keyed by an independent overflow predicate and excluded from generation by construction (large amounts only with zero genesis treasury).",
+         "Supply is recomputed from the implementation's utxoset (not from the reference ledger) so that utxoset bugs show up as supply changes. Every eighth position of a history is a two-block side chain whose second block spends a spent / non-existent output (a reorganisation that fails part-way). Finding F11 (u64 overflow of amount x payout multiplier) was repaired; its key stays available through an independent overflow predicate.",
          "DESIGN.md §3 C02"),
  "C05": ("exploration",
          "model-based testing against a reference fork-choice function: exhaustive small trees x ticket masks x timestamp profiles x all delivery orders, plus generated trees/orders with shrinking",
@@ -41,9 +41,9 @@ CHECKS = {
          "The 'must adopt' direction is asserted only for chains that also satisfy the implementation's extra start-up rule (one ticket in the first five blocks); other cases are counted as unasserted. Orphan deliveries with initial_loading_completed=false are known finding F10b.",
          "DESIGN.md §3 C05"),
  "C06": ("exploration",
-         "property-based mutation of valid blocks (16 edit kinds on transaction list, signed/unsigned header fields, merkle root, signature, creator) across the wire format, offered to a replica node; oracle from the statement",
+         "property-based mutation of valid blocks (20 edit kinds on transaction list, single transaction fields incl. txs_replacements, input coordinates and routing path, signed/unsigned header fields, merkle root, signature, creator) across the wire format, offered to replica nodes in three states (whole chain, joined mid-chain, empty node + genesis block); oracle from the statement",
          "For valid blocks at the tip of generated histories every edit of the transaction list or of a signed header field that is not re-signed by the stated creator must be refused; a block accepted under the original hash must carry the original ordered transaction list; a block re-signed by another key must have another hash; the unedited round-tripped block must be accepted.",
-         "Edits of header fields outside the signature are classified, not asserted (the statement does not cover them). Edits that decode to a field-for-field identical block (zeroed merkle root recomputed from unchanged transactions) are discarded as no-ops.",
+         "Edits of header fields outside the signature are classified, not asserted (the statement does not cover them). Open finding F40 (input coordinates and routing path are outside the transaction hash) is keyed by cause: accepted, same hash, same transaction hashes, different transactions. Edits that decode to a field-for-field identical block (zeroed merkle root recomputed from unchanged transactions) are discarded as no-ops.",
          "DESIGN.md §3 C06"),
  "C07": ("exploration",
          "differential property-based testing: generated production histories driven through the node's own pool entry and producer; every produced block is validated by the producer and by an independent second node (over the wire format), states compared",
@@ -52,7 +52,7 @@ CHECKS = {
          "DESIGN.md §3 C07"),
  "C08": ("exploration",
          "property-based testing in three parts: algebraic laws of the work function over the full u64/timestamp domain; boundary-value generation around the work requirement with an independently recomputed work oracle; payout eligibility/bound invariants over accepted blocks of generated histories",
-         "(a) 1e5 (quick) random points of the floating-point work function, including powers of two and extreme timestamps, checked for monotone non-increase in elapsed time and for reaching zero after two heartbeats; (b) blocks built outside the producer's gate one millisecond before, exactly at and after the moment the independently computed routing work meets the requirement, with valid, path-less, mis-addressed, forged and gapped routing paths; (c) every fee transaction on the longest chain of generated forked histories pays only the ticket solver and keys on routing paths of the blocks being paid, never more than those blocks collected.",
+         "(a) 1e5 (quick) random points of the floating-point work function, including powers of two and extreme timestamps, checked for monotone non-increase in elapsed time and for reaching zero after two heartbeats; (b) blocks built outside the producer's gate one millisecond before, exactly at and after the moment the independently computed routing work meets the requirement, with valid, path-less, mis-addressed, forged and gapped routing paths; (c) every fee transaction on the longest chain of generated forked histories pays only the ticket solver and keys on routing paths of the blocks being paid, never more than those blocks collected; the next block on the tip is then offered with its fee transaction extended / shortened / redirected / inflated by a re-signing producer and every variant must be refused.",
          "The requirement curve itself (needed as a function of burn fee and time) is taken from the implementation; only its laws are checked. Senders of path-less fee-paying transactions count as eligible (documented in get_winning_routing_node).",
          "DESIGN.md §3 C08"),
  "C13": ("exploration",
@@ -92,13 +92,13 @@ CHECKS = {
          "DESIGN.md §3 C15"),
  "C11": ("exploration",
          "property-based robustness testing of a whole node (real routing, verification, consensus, mining threads) under generated sequences of hostile and honest events, with a panic/step-bound oracle per handler invocation and a differential oracle against a twin node that only sees the honest sub-sequence",
-         "Sequences of 3..40 events mix decodable messages of every tag from an authenticated and an unauthenticated hostile peer (generated by the C09 value generators), key-list floods, bogus block announcements answered with garbage/truncated/empty/mismatching/edited blocks, catalogue transactions, raw garbage and connection events with honest transactions and blocks, timer ticks and channel pumping. Every handler invocation must return; block processing must stay under the step bound; after every event the tip, and at the end utxoset, honest pool content and honest peer status, must equal those of the honest-only twin.",
+         "Sequences of 3..40 events mix complete validly signed handshakes on new connections (under the hostile peer's already connected key or a fresh key), decodable messages of every tag from an authenticated and an unauthenticated hostile peer (generated by the C09 value generators), key-list floods, bogus block announcements answered with garbage/truncated/empty/mismatching/edited blocks, catalogue transactions, raw garbage and connection events with honest transactions and blocks, timer ticks and channel pumping. Every handler invocation must return; block processing must stay under the step bound; after every event the tip, and at the end utxoset, honest pool content and honest peer status, must equal those of the honest-only twin.",
          "A handler that never returns outside the wind/unwind loop can only be caught by the harness watchdog (reported as inconclusive, exit 2); the per-event tip comparison catches the known way into such a loop (corrupted chain index) before it is entered. Rate limiters other than the key-list one are not exhausted by these sequence lengths.",
          "DESIGN.md §3 C11"),
  "C12": ("fault_enumeration",
-         "crash-point enumeration over the journal of storage operations recorded by an in-memory InterfaceIO (prefix x {complete, absent, torn at 5 byte-class boundaries}), each followed by a real restart through ConsensusThread::on_init and a differential/replay oracle; histories generated with proptest",
-         "For generated histories with pruning, rebroadcast and reorganisations the clean restart must reproduce tip and in-window spendable set; for every enumerated crash point the restarted node must come up without panicking on a tip whose file was completely on disk, with index/flags describing the tip's ancestors, the in-window spendable set equal to the independent replay of that chain, supply conserved when the whole window is held, and must accept a valid next block.",
-         "The tearing model (prefix of the new content under the final name; removal atomic) is an assumption taken from RustIOHandler::write_value; the native handler is not executed. Quick tier strides over journal prefixes outside reorganisation/pruning steps; thorough tier takes every prefix. Histories avoid side chains whose fork point has been purged (known finding F10).",
+         "crash-point enumeration over the journal of storage operations recorded by an in-memory InterfaceIO (prefix x {complete, absent, torn at 5 byte-class boundaries and at/inside the first three transaction boundaries}), each followed by a real restart through ConsensusThread::on_init and a differential/replay oracle; histories generated with proptest",
+         "For generated histories with pruning, rebroadcast, reorganisations and stored-but-never-validated invalid side blocks the clean restart must reproduce tip and in-window spendable set; for every enumerated crash point the restarted node must come up without panicking on a tip whose file was completely on disk, with index/flags describing the tip's ancestors, the in-window spendable set equal to the independent replay of that chain, supply conserved when the whole window is held, and must accept a valid next block.",
+         "The tearing model (prefix of the new content under the final name; removal atomic) is an assumption taken from RustIOHandler::write_value; the native handler is not executed. Quick tier strides over journal prefixes outside reorganisation/pruning steps; thorough tier takes every prefix. Histories avoid side chains whose fork point has been purged (known finding F10). Open findings F37 (unvalidated stored side block adopted at restart once the genesis block is purged) and F41 (a competing valid branch wins by file order) are keyed by cause.",
          "DESIGN.md §3 C12"),
  "C20": ("exploration",
          "lockdep-style invariant checking over observed acquisition histories: generated handler-event sequences are replayed once per probed lock and probing mode; the harness holds the lock, polls the real handler future once and reads the handler's held-set from outside with try_read/try_write (no source hook)",
